@@ -45,12 +45,12 @@ Proof.
   unfold do_receive, next_event.
   destruct (cap c =? 0)%nat eqn:Ec.
   - destruct (client w) as [|e r]; [reflexivity|].
-    destruct e; destruct k as [|[|k]]; reflexivity.
+    destruct e as [n0 b0|n0 b0|co0 rr0]; try destruct b0; destruct k as [|[|k]]; reflexivity.
   - destruct (pump w) eqn:Ep; cbn.
     + destruct (queue (match queue w with [] => advance c w | _ :: _ => w end)) as [|e r];
-        [reflexivity|]. destruct e; destruct k as [|[|k]]; reflexivity.
+        [reflexivity|]. destruct e as [n0 b0|n0 b0|co0 rr0]; try destruct b0; destruct k as [|[|k]]; reflexivity.
     + destruct (queue w) as [|e r]; [destruct k as [|[|k]]; reflexivity|].
-      destruct e; destruct k as [|[|k]]; reflexivity.
+      destruct e as [n0 b0|n0 b0|co0 rr0]; try destruct b0; destruct k as [|[|k]]; reflexivity.
 Qed.
 
 (* the same statement is false of the code as found: a receive on a stopped receiver fails
@@ -59,7 +59,7 @@ Lemma op_recv_internal_before_fix :
   exists k c w, is_internal (fst (op_recv false k c w)) = true.
 Proof.
   exists 0%nat, (mkCfg true true 1 1011 KExact),
-         (mkWs Accepted None [CText 5] None None false [] [] [] false). reflexivity.
+         (mkWs Accepted None [CText 5 false] None None false [] [] [] false). reflexivity.
 Qed.
 
 Theorem misuse_table hr c o w :
@@ -136,7 +136,7 @@ Lemma misuse_table_refuted_before_fix :
   exists c w o, wf w /\ misuse_ok c (pub_of w) o (fst (run_op false (fun _ => false) c o w)) = false.
 Proof.
   exists (mkCfg true true 1 1011 KExact),
-         (mkWs Accepted None [CText 5] None None false [] [] [] false), ORecvText.
+         (mkWs Accepted None [CText 5 false] None None false [] [] [] false), ORecvText.
   split; [discriminate | reflexivity].
 Qed.
 
@@ -358,18 +358,22 @@ Qed.
 (* a receive that is past the state check and gets an event: that event is the head of what
    the client sent and has not been delivered yet; the result is that event, of the
    requested kind, unchanged; everything else stays in order *)
+Definition recv_value (k : nat) (e : cev) : result :=
+  match k with
+  | O => match get (text_entry e) with Some n => Ret (VText n) | None => Raise XPayload end
+  | S O => match get (bytes_entry e) with Some n => Ret (VBytes n) | None => Raise XPayload end
+  | _ => match get (text_entry e) with
+         | Some n => Ret (VMedia n)
+         | None => match get (bytes_entry e) with Some n => Ret (VMedia n) | None => Raise XPayload end
+         end
+  end.
+
+(* whatever the shape of the event (unused key absent, or present with None) *)
 Lemma recv_ok_kind k e :
-  recv_ok k e (match k, e with
-               | O, CText n => Ret (VText n)
-               | O, _ => Raise XPayload
-               | S O, CBin n => Ret (VBytes n)
-               | S O, _ => Raise XPayload
-               | _, CText n => Ret (VMedia n)
-               | _, CBin n => Ret (VMedia n)
-               | _, CDisc _ => Raise XPayload
-               end) = true \/ exists c, e = CDisc c.
+  recv_ok k e (recv_value k e) = true \/ exists c r, e = CDisc c r.
 Proof.
-  destruct e; [left|left|right; eauto]; destruct k as [|[|k]]; cbn; try apply N.eqb_refl; reflexivity.
+  destruct e as [n b|n b|c r]; [left|left|right; eauto];
+    destruct b; destruct k as [|[|k]]; cbn; try apply N.eqb_refl; reflexivity.
 Qed.
 
 (* the receive does not have to synthesise a disconnect event: the receiver is running, or
@@ -390,28 +394,28 @@ Proof.
   - apply Nat.eqb_eq in Ec. destruct (Hpt Ec) as [Hq Hh].
     destruct (client w) as [|e rest] eqn:Ecl; [injection Hs as <- <-; congruence|].
     exists e. rewrite !stream_eq, Hq, Hh, Ecl.
-    destruct e as [n|n|co]; injection Hs as <- <-; cbn; rewrite ?Hq, ?Hh; cbn;
+    destruct e as [n b|n b|co rr]; injection Hs as <- <-; cbn; rewrite ?Hq, ?Hh; cbn;
       (split; [reflexivity|]);
-      try (destruct (recv_ok_kind k (CText n)) as [A|[c0 A]]; [exact A|discriminate]);
-      try (destruct (recv_ok_kind k (CBin n)) as [A|[c0 A]]; [exact A|discriminate]).
+      try (destruct (recv_ok_kind k (CText n b)) as [A|[c0 [r0 A]]]; [exact A|discriminate]);
+      try (destruct (recv_ok_kind k (CBin n b)) as [A|[c0 [r0 A]]]; [exact A|discriminate]).
     destruct k as [|[|k]]; cbn; apply Z.eqb_refl.
   - destruct (pump w) eqn:Hp; cbn in Hs.
     + set (w0 := match queue w with [] => advance c w | _ => w end) in *.
       assert (S0 : stream w0 = stream w) by (subst w0; destruct (queue w); [apply advance_stream|reflexivity]).
       destruct (queue w0) as [|e rest] eqn:Eq; [injection Hs as <- <-; congruence|].
       exists e. rewrite <- S0. rewrite (stream_eq w0), Eq.
-      destruct e as [n|n|co]; injection Hs as <- <-; cbn;
+      destruct e as [n b|n b|co rr]; injection Hs as <- <-; cbn;
         (split; [reflexivity|]);
-        try (destruct (recv_ok_kind k (CText n)) as [A|[c0 A]]; [exact A|discriminate]);
-        try (destruct (recv_ok_kind k (CBin n)) as [A|[c0 A]]; [exact A|discriminate]).
+        try (destruct (recv_ok_kind k (CText n b)) as [A|[c0 [r0 A]]]; [exact A|discriminate]);
+        try (destruct (recv_ok_kind k (CBin n b)) as [A|[c0 [r0 A]]]; [exact A|discriminate]).
       destruct k as [|[|k]]; cbn; apply Z.eqb_refl.
     + destruct (queue w) as [|e rest] eqn:Eq.
       { destruct Hrx as [A|[A|A]]; [congruence | rewrite A in Ec; discriminate | congruence]. }
       exists e. rewrite (stream_eq w), Eq.
-      destruct e as [n|n|co]; injection Hs as <- <-; cbn;
+      destruct e as [n b|n b|co rr]; injection Hs as <- <-; cbn;
         (split; [reflexivity|]);
-        try (destruct (recv_ok_kind k (CText n)) as [A|[c0 A]]; [exact A|discriminate]);
-        try (destruct (recv_ok_kind k (CBin n)) as [A|[c0 A]]; [exact A|discriminate]).
+        try (destruct (recv_ok_kind k (CText n b)) as [A|[c0 [r0 A]]]; [exact A|discriminate]);
+        try (destruct (recv_ok_kind k (CBin n b)) as [A|[c0 [r0 A]]]; [exact A|discriminate]).
       destruct k as [|[|k]]; cbn; apply Z.eqb_refl.
 Qed.
 
@@ -516,7 +520,7 @@ Lemma close_retry_refuted_before_fix :
         /\ closes w = [EAccept None false; EClose 1000 true]).
 Proof.
   exists (fun _ => true), (mkCfg true true 1 1011 KExact), [],
-         (Routed [(OAccept SubNone HNone, false)]), [CDisc (Some 1001)], [SOk; SOSError None].
+         (Routed [(OAccept SubNone HNone, false)]), [CDisc (Some 1001) false], [SOk; SOSError None].
   split; [constructor|]. split; [repeat constructor|].
   Transparent mon_run. split; vm_compute; auto. Opaque mon_run.
 Qed.
@@ -530,7 +534,7 @@ Lemma send_media_refuted_before_fix :
     /\ (let '(rs, e, w) := session true hr c true mw rt cl fl in features_ok c (trace w) = true).
 Proof.
   exists (fun _ => true), (mkCfg true true 1 1011 KArray), [],
-         (Routed [(OAccept SubNone HNone, false); (OSendMedia true 7, false)]), [CDisc None], [].
+         (Routed [(OAccept SubNone HNone, false); (OSendMedia true 7, false)]), [CDisc None false], [].
   split; vm_compute; reflexivity.
 Qed.
 
@@ -542,7 +546,7 @@ Proof.
   destruct (would_park c w); [intros H _; injection H as _ <-; reflexivity|].
   intros H ->. exfalso. unfold op_recv in H. destruct (require_accepted w); [discriminate|].
   destruct (do_receive f c w) as [[[e|x]|u] w1]; try discriminate.
-  destruct e; discriminate.
+  destruct e as [n b|n b|co rr]; try destruct b; discriminate.
 Qed.
 
 (* a WebSocketDisconnected raised by the responder itself while its own client is connected
@@ -563,4 +567,19 @@ Proof.
   - destruct (valid_code (err_code c)) eqn:Hv.
     + rewrite (close_valid_fresh _ _ _ _ Hv). cbn. repeat split; eauto.
     + unfold op_close at 1. rewrite !(code_check_invalid _ Hv). cbn. repeat split; eauto.
+Qed.
+
+(* the shape of an incoming event (unused key absent or None; disconnect with or without a
+   reason) never matters *)
+Lemma event_shape_irrelevant k n b c r :
+  recv_value k (CText n b) = recv_value k (CText n false)
+  /\ recv_value k (CBin n b) = recv_value k (CBin n false)
+  /\ disc_code (CDisc c r) = disc_code (CDisc c false).
+Proof. destruct b; destruct k as [|[|k]]; repeat split; reflexivity. Qed.
+
+Lemma op_recv_value f k c w e w1 :
+  require_accepted w = None -> do_receive f c w = (inl (inl e), w1) ->
+  op_recv f k c w = (recv_value k e, w1).
+Proof.
+  intros Hr Hd. unfold op_recv. rewrite Hr, Hd. destruct k as [|[|k]]; reflexivity.
 Qed.
